@@ -1,7 +1,23 @@
 open Datatypes
 
+val qmap : ('a1 -> 'a2) -> 'a1 list -> 'a2 list
+
 val qnth : nat -> 'a1 list -> 'a1 -> 'a1
 
 val qrev_append : 'a1 list -> 'a1 list -> 'a1 list
 
 val qrev : 'a1 list -> 'a1 list
+
+val qfirstn : nat -> 'a1 list -> 'a1 list
+
+val qskipn : nat -> 'a1 list -> 'a1 list
+
+val qfold_left : ('a1 -> 'a2 -> 'a1) -> 'a2 list -> 'a1 -> 'a1
+
+val qfilter : ('a1 -> bool) -> 'a1 list -> 'a1 list
+
+val qexistsb : ('a1 -> bool) -> 'a1 list -> bool
+
+val qforallb : ('a1 -> bool) -> 'a1 list -> bool
+
+val qconcat : 'a1 list list -> 'a1 list
